@@ -885,7 +885,8 @@ CaseJson(s) ==
    \* soundOnly: the documentation leaves the rest of this behaviour open; only "never goes wrong"
    \* (and the effects so far being a prefix) can be demanded of the implementation
    soundOnly |-> s.status = "unspec",
-   expect |-> [errContains |-> s.msgs,
+   \* the messages of failed tests are part of the final error only when the run ends as a failed test run
+   expect |-> [errContains |-> IF s.status = "testfail" THEN s.msgs ELSE <<>>,
                effects |-> SubSeq(s.out, 1, MainEnd(s)),
                result |-> IF s.evi > 0 THEN <<"ok">> ELSE ResultOf(s),
                events |-> EventExpect(s)]]
